@@ -518,7 +518,13 @@ impl Canvas2 {
         pos_screen: Option<Point2<i32>>,
     ) -> bool {
         let pos_world = pos_screen.map(|p| self.image_size.transform_point(p));
-        self.view.zoom((amount / 100.0).exp2(), pos_world)
+        let changed = self.view.zoom((amount / 100.0).exp2(), pos_world);
+        // Keep an in-progress drag anchored to the same model point
+        if let Some(h) = &mut self.drag_start {
+            h.initial_mat = self.view.world_to_model();
+            h.initial_center = self.view.center;
+        }
+        changed
     }
 }
 
@@ -650,6 +656,12 @@ impl Canvas3 {
         pos_screen: Option<Point2<i32>>,
     ) -> bool {
         let pos_world = pos_screen.map(|p| self.screen_to_world(p));
-        self.view.zoom((amount / 100.0).exp2(), pos_world)
+        let changed = self.view.zoom((amount / 100.0).exp2(), pos_world);
+        // Keep an in-progress pan anchored to the same model point
+        if let Some(Drag3::Pan(h)) = &mut self.drag_start {
+            h.initial_mat = self.view.world_to_model();
+            h.initial_center = self.view.center;
+        }
+        changed
     }
 }
